@@ -161,3 +161,42 @@ Qed.
 
 Lemma filter_is_wmean : forall l, 0 < sumw l -> filter_band l == wmean l.
 Proof. intros l H. unfold filter_band, wmean. apply filter_norm_pos. exact H. Qed.
+
+(* ---- the regenerated weight expression ---- *)
+
+(* every weight the source forms is >= 0 when the response curve is (removing np.absolute from the source breaks this) *)
+Lemma weights_nonneg : forall fitted resp, 0 <= resp -> 0 <= filter_weight (filter_logdiff fitted) resp.
+Proof.
+  intros fitted resp H. unfold filter_weight, filter_logdiff.
+  apply Qmult_le_0_compat; [apply Qabs_nonneg | exact H].
+Qed.
+
+(* ... and it is the documented weight |d(log lambda)| * response *)
+Lemma weight_is_spec : forall fitted resp, filter_weight (filter_logdiff fitted) resp == weight_S fitted resp.
+Proof. intros. unfold filter_weight, filter_logdiff, weight_S. reflexivity. Qed.
+
+Definition resp_nonneg (l : list (Q * Q * Q)) : Prop := forall t, In t l -> 0 <= snd (fst t).
+Definition flux_within3 (lo hi : Q) (l : list (Q * Q * Q)) : Prop := forall t, In t l -> lo <= snd t <= hi.
+
+Lemma band_pairs_nonneg : forall l, resp_nonneg l -> nonneg_weights (band_pairs l).
+Proof.
+  intros l H w f I. unfold band_pairs in I. apply in_map_iff in I. destruct I as [t [E I]].
+  inversion E; subst. apply weights_nonneg. apply H. exact I.
+Qed.
+
+Lemma band_pairs_within : forall lo hi l, flux_within3 lo hi l -> flux_within lo hi (band_pairs l).
+Proof.
+  intros lo hi l H w f I. unfold band_pairs in I. apply in_map_iff in I. destruct I as [t [E I]].
+  inversion E; subst. apply H. exact I.
+Qed.
+
+(* the band value computed from the raw ingredients lies within the flux range whenever the band overlaps the spectrum *)
+Lemma filter_thru_band_bounds : forall lo hi l, resp_nonneg l -> flux_within3 lo hi l -> 0 < sumw (band_pairs l) ->
+  lo <= filter_thru_band l <= hi.
+Proof.
+  intros lo hi l Hr Hf Hs. unfold filter_thru_band. apply filter_band_bounds.
+  apply band_pairs_nonneg; exact Hr. apply band_pairs_within; exact Hf. exact Hs.
+Qed.
+
+Lemma filter_thru_band_no_overlap : forall l, resp_nonneg l -> sumw (band_pairs l) <= 0 -> filter_thru_band l == 0.
+Proof. intros l Hr Hs. unfold filter_thru_band. apply filter_band_no_overlap. apply band_pairs_nonneg; exact Hr. exact Hs. Qed.
